@@ -36,9 +36,10 @@ type K struct {
 	Recvs  int
 	Sends  int
 	// EmptyReads counts receives that found nothing queued (the client then sleeps 50 ms)
-	EmptyReads int
-	SendErr    error
-	CloseErr   error
+	EmptyReads    int
+	SendErr       error
+	CloseErr      error
+	ClosedReadErr syscall.Errno // once Close was called every Receive fails with this (0 = queued datagrams stay readable)
 	// OnSend is called for every request after it has been recorded; it queues
 	// the kernel's answer. Leftovers of the previous operation are dropped first
 	// unless KeepQueue is set.
@@ -102,6 +103,9 @@ func (k *K) Send(m syscall.NetlinkMessage) (uint32, error) {
 func (k *K) Receive(nonBlocking bool, p libaudit.NetlinkParser) ([]syscall.NetlinkMessage, error) {
 	k.Recvs++
 	k.Log = append(k.Log, "recv")
+	if k.Closes > 0 && k.ClosedReadErr != 0 {
+		return nil, k.ClosedReadErr
+	}
 	if len(k.Queue) == 0 {
 		k.EmptyReads++
 		return nil, syscall.EAGAIN
